@@ -48,6 +48,7 @@ type c25bucket struct {
 	ColNames []string
 	colTypes []int // indexes into ms.ElemTypes
 	anchor   int64 // unix seconds of the anchor interval start
+	cross    bool  // the intervals anchor .. anchor+7 straddle the end of the year
 	fresh    bool  // replmix stratum: first written by the mixed group
 	// set while generating: some written variable record lies >= 1 s after its interval start
 	secOffset bool
@@ -136,11 +137,15 @@ func c25gen(c *runner.Ctx) *c25case {
 			lo = ys + 86400 // Jan 1 of a 1D bucket is the separate defect F-JAN1 (C08)
 		}
 		hi := ye - 8*step
-		switch r.Intn(4) {
-		case 0:
+		switch k := r.Intn(5); {
+		case k == 0:
 			b.anchor = lo
-		case 1:
+		case k == 1:
 			b.anchor = hi
+		case k == 4 && b.TF.d < 24*time.Hour:
+			// the eight intervals straddle the end of the year: one bucket is written in two year files
+			b.anchor = ye - 4*step
+			b.cross = true
 		default:
 			b.anchor = lo + r.I64n((hi-lo)/step+1)*step
 		}
@@ -254,7 +259,11 @@ func c25rows(r *gen.R, cs *c25case, b *c25bucket) []c25row {
 	} else {
 		ivNs := b.TF.d.Nanoseconds()
 		for i := 0; i < n; i++ {
-			start := (b.anchor + int64(r.Intn(4))*step) * 1e9
+			span := 4
+			if b.cross {
+				span = 8
+			}
+			start := (b.anchor + int64(r.Intn(span))*step) * 1e9
 			var off int64
 			subSecondOnly := cs.stratum != "replsec" && b.TF.d > time.Second
 			switch r.Intn(6) {
@@ -743,6 +752,9 @@ func c25judge(res *runner.Result, cs *c25case, keys []string, mq, rq, snapshot c
 			continue
 		}
 		res.Count("buckets_compared", 1)
+		if m.N > 0 && time.Unix(0, m.TimeNs(0)).UTC().Year() != time.Unix(0, m.TimeNs(m.N-1)).UTC().Year() {
+			res.Count("buckets_with_rows_in_two_years", 1)
+		}
 		res.Set("timeframes", b.TF.name)
 		if b.Variable {
 			nRowsVar += int64(m.N)
